@@ -186,6 +186,20 @@ static bool run_cb(int which)
     return true;
 }
 
+/* The out-of-band queues have 255 slots in reality and UPIPE_VERIF_OOB_QUEUES (4) here: before an operation that posts
+ * downstream messages the consumer's out-of-band worker runs if fewer than two slots are free, so that the shortened
+ * queue never constrains a schedule in a way the real one would not. */
+static void oob_room(void)
+{
+    for (int i = 0; i < UPIPE_VERIF_OOB_QUEUES; i++) {
+        if (env_count(QSRC, UPROBE_DEAD) != 0 ||
+            uqueue_length(&upipe_queue(QSRC)->downstream_oob) + 2 <= UPIPE_VERIF_OOB_QUEUES)
+            return;
+        if (!run_cb(2))
+            return;
+    }
+}
+
 int main(void)
 {
     static const int ops[] = { OPS };
@@ -224,12 +238,14 @@ int main(void)
                 flushed = true;
                 break;
             case 4:
+                oob_room();
                 if (!qsink_released) {
                     qsink_released = true;
                     upipe_release(QSINK);
                 }
                 break;
             case 5:
+                oob_room();
                 if (!qsrc_released) {
                     qsrc_released = true;
                     upipe_release(QSRC);
@@ -244,10 +260,12 @@ int main(void)
                 pseudo = NULL;
                 break;
             case 12:
+                oob_room();
                 VASSERT(ubase_check(upipe_register_request(QSINK, &RQ)), "request accepted by the queue sink");
                 rq_registered = true;
                 break;
             case 13:
+                oob_room();
                 if (rq_registered) {
                     VASSERT(ubase_check(upipe_unregister_request(QSINK, &RQ)), "request withdrawn from the queue sink");
                     rq_registered = false;
@@ -304,12 +322,15 @@ int main(void)
         VASSERT(rq_answers >= 1, "C12: the answer of the provider behind the queue reaches the original requester");
     }
     if (rq_registered && !qsink_released) {
+        oob_room();
         VASSERT(ubase_check(upipe_unregister_request(QSINK, &RQ)), "request withdrawn from the queue sink");
         rq_registered = false;
     }
     /* teardown: both handles go, the loops run until nothing is ready */
+    oob_room();
     if (!qsink_released)
         upipe_release(QSINK);
+    oob_room();
     if (!qsrc_released)
         upipe_release(QSRC);
     for (int s = 0; s < SETTLE; s++) {
